@@ -1,5 +1,2 @@
--- Root of the `KDVerif` library: models, drivers, property theorems.
-import KDVerif.Driver.All
-import KDVerif.Props.C04
-import KDVerif.Props.C05
-import KDVerif.Props.C06
+-- Root of the `KDVerif` library. `bin/setup` builds every module under KDVerif/ explicitly.
+import KDVerif.Driver.Loop
